@@ -1,4 +1,4 @@
-import Cppcms.C06.Refine8
+import Cppcms.C06.Refine9
 /-!
 # C06 — property theorems
 
@@ -353,6 +353,26 @@ theorem stored_keys_are_issued (cfg : Cfg) (env : Env) (now0 : Int) (steps : Lis
     StoreInv env (run cfg env ⟨[], []⟩ 0 steps).1 (run cfg env ⟨[], []⟩ 0 steps).2 :=
   (run_inv cfg env _ _ now0 steps (storeInv_empty env) h).1
 
+
+/-- **Identifiers not of the issued form never address storage.**  Whatever cookie a request presents
+(malformed, path-like such as `I../../etc/passwd…`, wrong length, upper-case hex, a forged client cookie …)
+and whatever it does, every call of the `session_storage` interface it makes (`load`, `save`, `remove` —
+the model logs each with its key) is addressed with 32 lower-case hexadecimal digits. -/
+theorem malformed_sid_never_reaches_storage (ctx : Ctx) (st : Store) (next : Nat) (ops : List Op)
+    (he : EnvOK ctx.env) (h : LogOK st.log) : LogOK (request ctx st next ops).store.log :=
+  request_log ctx st next ops he h
+
+/-- … and so through every history from the empty store, with no condition on the presented cookies at all. -/
+theorem malformed_sid_never_reaches_storage_history (cfg : Cfg) (env : Env) (steps : List Step) (he : EnvOK env) :
+    ∀ e ∈ (run cfg env ⟨[], []⟩ 0 steps).1.log, Spec.wellFormedId e.2 = true :=
+  run_log cfg env ⟨[], []⟩ 0 steps he (fun _ h => by cases h)
+
+/-- **The 10 % renewal window** as the source has it (`delta < timeout_val_ * 0.1` with
+`delta = now + timeout_val_ - timeout_in_`): an unchanged renew/browser session is not rewritten while fewer
+than a tenth of its period has passed since `timeout_in_ - timeout_val_`, the instant of the last write. -/
+theorem renewal_window (now T tin : Int) :
+    (Gen.delta now T tin * Gen.renewDen < T * Gen.renewNum) ↔ 10 * (now - (tin - T)) < T := by
+  simp only [Gen.delta, Gen.renewDen, Gen.renewNum]; omega
 
 /-! ### Non-vacuity / sanity instances -/
 
